@@ -490,6 +490,30 @@ func structureAware(full string, value, altValue []byte, top string, p []step, p
 	setB := func(fd protoreflect.FieldDescriptor, b []byte) func(protoreflect.Message) {
 		return func(mm protoreflect.Message) { mm.Set(fd, protoreflect.ValueOfBytes(b)) }
 	}
+	// sibling byte fields with coordinated lengths: k significant bytes move from one field to its neighbour (one
+	// grows, the other shrinks, the sum stays), for every pair of consecutive byte fields of the message
+	var bfs []protoreflect.FieldDescriptor
+	for i := 0; i < fds.Len(); i++ {
+		if fd := fds.Get(i); fd.Kind() == protoreflect.BytesKind && !fd.IsList() && len(m.Get(fd).Bytes()) >= 4 {
+			bfs = append(bfs, fd)
+		}
+	}
+	for i := 0; i+1 < len(bfs); i++ {
+		for _, dir := range [][2]protoreflect.FieldDescriptor{{bfs[i], bfs[i+1]}, {bfs[i+1], bfs[i]}} {
+			grow, shrink := dir[0], dir[1]
+			for _, k := range []int{1, 2} {
+				k := k
+				add(fmt.Sprintf("pair:%s+%d-bytes,%s-%d-bytes", grow.Name(), k, shrink.Name(), k), false, func(mm protoreflect.Message) {
+					g, sh := mm.Get(grow).Bytes(), mm.Get(shrink).Bytes()
+					if len(sh) < k {
+						return
+					}
+					mm.Set(grow, protoreflect.ValueOfBytes(append(bytes.Repeat([]byte{0x01}, k), g...)))
+					mm.Set(shrink, protoreflect.ValueOfBytes(bytes.Clone(sh[k:])))
+				})
+			}
+		}
+	}
 	// EC point in x / y
 	xfd, yfd := fds.ByName("x"), fds.ByName("y")
 	if xfd != nil && yfd != nil {
@@ -510,6 +534,37 @@ func structureAware(full string, value, altValue []byte, top string, p []step, p
 			})
 			add("EC:(empty,empty)", false, func(mm protoreflect.Message) {
 				mm.Set(xfd, protoreflect.ValueOfBytes(nil))
+				mm.Set(yfd, protoreflect.ValueOfBytes(nil))
+			})
+			// one coordinate oversized with SIGNIFICANT surplus bytes while the other is short or missing: parsers that
+			// bound the sum of the lengths (or only one coordinate) meet an encoder that assumes each one fits
+			xb, yb := fixed(x, n), fixed(y, n)
+			for _, k := range []int{1, 2, 8} {
+				k := k
+				pad := bytes.Repeat([]byte{0x01}, k)
+				add(fmt.Sprintf("EC:x+%d-significant-bytes,y-%d-bytes", k, k), k == 2, func(mm protoreflect.Message) {
+					mm.Set(xfd, protoreflect.ValueOfBytes(append(bytes.Clone(pad), xb...)))
+					mm.Set(yfd, protoreflect.ValueOfBytes(bytes.Clone(yb[k:])))
+				})
+				add(fmt.Sprintf("EC:y+%d-significant-bytes,x-%d-bytes", k, k), false, func(mm protoreflect.Message) {
+					mm.Set(yfd, protoreflect.ValueOfBytes(append(bytes.Clone(pad), yb...)))
+					mm.Set(xfd, protoreflect.ValueOfBytes(bytes.Clone(xb[k:])))
+				})
+				add(fmt.Sprintf("EC:x+%d-significant-bytes,y-empty", k), k == 2, func(mm protoreflect.Message) {
+					mm.Set(xfd, protoreflect.ValueOfBytes(append(bytes.Clone(pad), xb...)))
+					mm.Set(yfd, protoreflect.ValueOfBytes(nil))
+				})
+				add(fmt.Sprintf("EC:y+%d-significant-bytes,x-empty", k), false, func(mm protoreflect.Message) {
+					mm.Set(yfd, protoreflect.ValueOfBytes(append(bytes.Clone(pad), yb...)))
+					mm.Set(xfd, protoreflect.ValueOfBytes(nil))
+				})
+				add(fmt.Sprintf("EC:x+%d-significant-bytes,y-zero", k), false, func(mm protoreflect.Message) {
+					mm.Set(xfd, protoreflect.ValueOfBytes(append(bytes.Clone(pad), xb...)))
+					mm.Set(yfd, protoreflect.ValueOfBytes(make([]byte, n-k)))
+				})
+			}
+			add("EC:x=2n-bytes,y-empty", false, func(mm protoreflect.Message) {
+				mm.Set(xfd, protoreflect.ValueOfBytes(append(bytes.Clone(xb), yb...)))
 				mm.Set(yfd, protoreflect.ValueOfBytes(nil))
 			})
 			add("EC:x<->y", false, func(mm protoreflect.Message) {
